@@ -36,7 +36,9 @@ MANIFEST = {
 }
 GEN = ["BerFormulas", "PdTable"]
 MODELS = ["OptiVerif.Model.Ber", "OptiVerif.Gen.BerFormulas", "OptiVerif.Model.Pd", "OptiVerif.Gen.PdTable"]
-RULE = ("cases = Q points; (mu0,mu1,s0,s1) eyes with mu1-mu0 in (0,20*max s], equal and unequal sigmas, shifted twins, M in {2..256} x "
+RULE = ("cases = Q points; (mu0,mu1,s0,s1) eyes with mu1-mu0 in (0,20*max s], equal and unequal sigmas, shifted twins, eye objects carrying extra "
+        "attributes (a `threshold` inside / outside / at the edge of [mu0,mu1] or None, GET_EYE-like fields) and eyes measured by the real "
+        "devices.GET_EYE on noisy OOK / PPM waveforms, M in {2..256} x "
         "hard/soft for ook/ppm THRESHOLD_EST / BER_analizer('estimator') / theory_BER (scalar and array arguments); receiver points "
         "P_avg in [-50,0] dBm, ER in [3,inf] dB, amplified (G in [0,40], NF in [3,10], BW_opt > BW_el) and unamplified (with and "
         "without G/NF/BW_opt given), r in (0,1], R_L in [10,1e4], T in [0,400], NF_el >= 0 for p_ase / average_voltages / "
@@ -81,6 +83,19 @@ def _eye(rng):
     return {"mu0": mu0, "mu1": mu0 + d, "s0": s0, "s1": s1}
 
 
+def _extra(rng, e):
+    """other attributes an eye object may carry (devices.GET_EYE stores ~30 of them, among them a KDE-valley `threshold`): the
+    estimators must depend on (mu0, mu1, s0, s1[, M]) only"""
+    if rng.random() < 0.35:
+        return {}
+    d = e["mu1"] - e["mu0"]
+    thr = rng.choice([None, e["mu0"] + rng.uniform(0.05, 0.95) * d, e["mu0"] + d * e["s0"] / (e["s0"] + e["s1"]), e["mu0"] - d,
+                      e["mu1"] + 2 * d, 0.0, e["mu0"], e["mu1"]])
+    x = {"threshold": thr, "t_opt": 0.0, "t_left": -0.5, "t_right": 0.5, "t_dist": 1.0, "sps": 16, "dt": 6.25e-11, "i": 8,
+         "er": 10.0, "eye_h": d - 3 * e["s0"] - 3 * e["s1"], "execution_time": 0.0, "um": 0.123, "M": 64, "decision": "soft"}
+    return x if rng.random() < 0.7 else {"threshold": thr}
+
+
 def _rx(rng, amplify=None):
     amplify = rng.random() < 0.6 if amplify is None else amplify
     BW_el = rng.choice([1e9, 5e9, 2.5e9, rng.uniform(0.5e9, 20e9)])
@@ -103,11 +118,16 @@ def gen_cases(rng, tier):
                   + [rng.uniform(-8, 30) for _ in range(40 * k)]})
     for _ in range(30 * k):
         e = _eye(rng)
-        cases.append({"kind": "ook", **e, "shift": rng.choice([1.0, -2.5, 100.0]) * (e["mu1"] - e["mu0"])})
+        cases.append({"kind": "ook", **e, "shift": rng.choice([1.0, -2.5, 100.0]) * (e["mu1"] - e["mu0"]), "extra": _extra(rng, e)})
     for M in MS:
         for _ in range(5 * k):
             e = _eye(rng)
-            cases.append({"kind": "ppm", "M": M, **e, "shift": rng.choice([1.0, -2.5, 30.0]) * (e["mu1"] - e["mu0"])})
+            cases.append({"kind": "ppm", "M": M, **e, "shift": rng.choice([1.0, -2.5, 30.0]) * (e["mu1"] - e["mu0"]), "extra": _extra(rng, e)})
+    # eyes measured by the real devices.GET_EYE on a noisy waveform (they carry `threshold`, t_opt, er, ... besides mu/s)
+    for mod, M in ([("ppm", 4), ("ook", 2), ("ppm", 8)] if tier == "quick" else [("ppm", 4), ("ook", 2), ("ppm", 8), ("ppm", 2), ("ook", 2), ("ppm", 16)] * 2):
+        cases.append({"kind": "geteye", "modulation": mod, "M": M, "sps": 16, "R": 1e9, "nsym": 2048 // M if mod == "ppm" else 1024,
+                      "sigma": rng.uniform(0.08, 0.2), "Vout": rng.choice([1.0, 0.5]), "bias": rng.choice([0.0, 0.2]),
+                      "seed": rng.getrandbits(31)})
     for _ in range(6 * k):
         es = [_eye(rng) for _ in range(3)]
         cases.append({"kind": "vec", "M": rng.choice(MS), "mu": [e["mu1"] - e["mu0"] for e in es], "s0": [e["s0"] for e in es],
@@ -254,11 +274,49 @@ def run_impl(case):
             if kind == "q":
                 res["q"] = [_f(utils.Q(x)) for x in case["xs"]]
                 res["qvec"] = [float(v) for v in utils.Q(np.array(case["xs"]))]
+            if kind == "geteye":
+                # measure an eye with the real estimator, then treat it as an ordinary ook / ppm case on ITS mu / sigma values
+                from opticomlib.devices import DAC, GET_EYE
+                g = np.random.default_rng(case["seed"])
+                gv(sps=case["sps"], R=case["R"])
+                if case["modulation"] == "ppm":
+                    sym = g.integers(0, case["M"], case["nsym"])
+                    slots = np.zeros(sym.size * case["M"], dtype=int)
+                    slots[np.arange(sym.size) * case["M"] + sym] = 1
+                else:
+                    slots = g.integers(0, 2, case["nsym"])
+                x = DAC(slots, Vout=case["Vout"], bias=case["bias"], pulse_shape="rect")
+                x.noise = g.normal(0, case["sigma"] * case["Vout"], x.len())
+                np.random.seed(case["seed"])
+                with time_limit(120):
+                    e = GET_EYE(x, nslots=4096)
+                vals = {k2: float(getattr(e, k2)) for k2 in ("mu0", "mu1", "s0", "s1")}
+                if not all(math.isfinite(v2) for v2 in vals.values()) or not (vals["mu1"] > vals["mu0"] and min(vals["s0"], vals["s1"]) > 0):
+                    res.update(status="done", geteye_unusable=vals)
+                    return res
+                thr_attr = getattr(e, "threshold", None)
+                res["eye_threshold_attr"] = None if thr_attr is None else float(thr_attr)
+                d = vals["mu1"] - vals["mu0"]
+                case = {"kind": case["modulation"], "M": case["M"], **vals, "shift": d}
+                res["sub"] = case
+                kind = case["kind"]
+                attrs = dict(vars(e))
+                attrs2 = dict(attrs)
+                attrs2.update(mu0=vals["mu0"] + d, mu1=vals["mu1"] + d)
+                if thr_attr is not None:
+                    attrs2["threshold"] = thr_attr + d
+                e2 = eye(**attrs2)
+                mu = d
             elif kind in ("ook", "ppm", "err-ppm"):
-                e = eye(mu0=case["mu0"], mu1=case["mu1"], s0=case["s0"], s1=case["s1"])
+                extra = case.get("extra") or {}
+                e = eye(mu0=case["mu0"], mu1=case["mu1"], s0=case["s0"], s1=case["s1"], **extra)
                 d = case.get("shift", 0.0)
-                e2 = eye(mu0=case["mu0"] + d, mu1=case["mu1"] + d, s0=case["s0"], s1=case["s1"])
+                extra2 = dict(extra)
+                if extra2.get("threshold") is not None:
+                    extra2["threshold"] = extra2["threshold"] + d
+                e2 = eye(mu0=case["mu0"] + d, mu1=case["mu1"] + d, s0=case["s0"], s1=case["s1"], **extra2)
                 mu = case["mu1"] - case["mu0"]
+            if kind in ("ook", "ppm", "err-ppm"):
                 if kind == "ook":
                     res["thr"] = _try(lambda: _f(ook.THRESHOLD_EST(e)))
                     res["est"] = _try(lambda: _f(ook.BER_analizer("estimator", eye_obj=e)))
@@ -436,6 +494,8 @@ def _idb(x):
 def model_requests(case, res):
     if res.get("status") != "done":
         return []
+    if case["kind"] == "geteye":
+        return model_requests(res["sub"], res) if "sub" in res else []
     k = case["kind"]
     if k == "q":
         return ["ber.q " + enc_f(x) for x in case["xs"]]
@@ -556,6 +616,9 @@ def _cmp_thr(name, rep, impl, obj, span):
 def compare(case, res, reqs, replies):
     if not reqs:
         return []
+    if case["kind"] == "geteye":
+        return [f"eye measured by GET_EYE (threshold attribute {res.get('eye_threshold_attr')!r}): {d}"
+                for d in compare(res["sub"], res, reqs, replies)]
     from opticomlib.utils import Q
     k = case["kind"]
     out = []
@@ -688,6 +751,11 @@ def oracle(case, res):
     if res.get("status") != "done":
         return [("C13:harness", f"harness failure: {res.get('detail')}")]
     k = case["kind"]
+    if k == "geteye":
+        if "sub" not in res:
+            return v          # GET_EYE could not measure this waveform: not this property's business
+        return [(sig, f"eye measured by devices.GET_EYE (it carries threshold = {res.get('eye_threshold_attr')!r} and other attributes): {msg}")
+                for sig, msg in oracle(res["sub"], res)]
     if k == "q":
         for x, a, b in zip(case["xs"], res["q"], res["qvec"]):
             ref = float(_Q(x))
@@ -1032,6 +1100,16 @@ def _oracle_device_pd(case, res):
 def features(case, res):
     f = ["kind=" + case["kind"], "status=" + str(res.get("status"))]
     k = case["kind"]
+    if k == "geteye":
+        f.append("geteye=" + ("measured:" + case["modulation"] if "sub" in res else "unusable"))
+        f.append("geteye-threshold-attr=" + ("none" if res.get("eye_threshold_attr") is None else "number"))
+        return f
+    if k in ("ook", "ppm"):
+        x = case.get("extra") or {}
+        f.append("eye-extra=" + ("none" if not x else "threshold-only" if len(x) == 1 else "GET_EYE-like"))
+        if x:
+            t = x.get("threshold")
+            f.append("eye-threshold=" + ("None" if t is None else "inside" if case["mu0"] < t < case["mu1"] else "outside-or-edge"))
     if k in ("ook", "ppm"):
         f.append("equal-sigma" if case["s0"] == case["s1"] else "unequal-sigma")
         f.append("mu0=0" if case["mu0"] == 0 else "mu0!=0")
@@ -1054,6 +1132,6 @@ def features(case, res):
 
 
 def nontrivial_key(case, res):
-    if res.get("status") != "done" or case["kind"].startswith("err"):
+    if res.get("status") != "done" or case["kind"].startswith("err") or (case["kind"] == "geteye" and "sub" not in res):
         return None
     return (case["kind"], repr(sorted((k, repr(v)) for k, v in case.items())))
